@@ -216,6 +216,8 @@ def run(ctx):
     for i in badc[:5]:
         ctx.corr_mismatch("pickled object graph: model (dump_all []) vs __getstate__ of the implementation", {"case": meta[i]})
     ctx.cov["object_graphs_compared_with_model"] = total
+    typed_variants(ctx)
+    stored_states(ctx)
     # ---- cross-loading in a pure-Python child
     env = dict(os.environ, PURE_PYTHON="1")
     proc = subprocess.run([sys.executable, os.path.join(os.path.dirname(os.path.dirname(os.path.abspath(__file__))), "c06_child.py")],
@@ -249,6 +251,129 @@ def run(ctx):
     ctx.cov["pickle_byte_comparisons"] = nbytes_cmp
     ctx.cov["cross_loaded_in_pure_python_process"] = got
     ctx.traces = ctx.evaluations
+
+
+def typed_repr(x):
+    """repr that distinguishes True from 1 and 2 from 2.0, recursively; persistent objects by their state"""
+    from persistent import Persistent
+    if isinstance(x, Persistent):
+        n = type(x).__name__
+        return "%s<%s>" % (n[:-2] if n.endswith("Py") else n, typed_repr(x.__getstate__()))
+    if isinstance(x, (tuple, list)):
+        return "(" + ",".join(typed_repr(y) for y in x) + ")"
+    return "%s:%r" % (type(x).__name__, x)
+
+
+def typed_variants(ctx):
+    """keys and values of a convertible but different Python type (bool for integers, int for floats): both
+    implementations must store the family's own type, so states and pickles stay identical and type-stable"""
+    from harness.families import fam, BOUNDS
+    n = 0
+    for fn in ALL_FAMS:
+        f = fam(fn)
+        if f.kk in BOUNDS:
+            keys = [True, 2, 5, 9]
+        elif f.kk == "O":
+            keys = ["a", "b", "c", "d"]
+        else:
+            keys = [b"ab", b"cd", b"ef", b"gh"]
+        if f.vk in BOUNDS:
+            vals = [True, 5, False, 7]
+        elif f.vk == "F":
+            vals = [2, True, 1.5, 0]
+        elif f.vk == "O":
+            vals = ["x", None, 1, 2.5]
+        else:
+            vals = [b"abcdef", b"ghijkl", b"mnopqr", b"stuvwx"]
+        for kind in ("BTree", "Bucket", "TreeSet", "Set"):
+            setlike = kind in ("TreeSet", "Set")
+            objs = {}
+            for impl in ("C", "Py"):
+                cls = f.cls(kind, impl)
+                with sizes_of(f, impl, 2, 2):
+                    t = cls()
+                    for k, v in zip(keys, vals):
+                        if setlike:
+                            t.add(k)
+                        else:
+                            t[k] = v
+                    if not setlike:
+                        t.update({keys[1]: vals[0]})
+                        t.setdefault(keys[2], vals[1])
+                    st = typed_repr(t.__getstate__())
+                    dumps = [pickle.dumps(t, p) for p in (0, 2, 5)]
+                    back = typed_repr(pickle.loads(dumps[1]).__getstate__())
+                    cp = typed_repr(copy.deepcopy(t).__getstate__())
+                objs[impl] = (st, dumps)
+                n += 1
+                if back != st or cp != st:
+                    ctx.oracle_failure("%s:typed-values:%s:state-not-type-stable" % (impl, kind),
+                                       "%s%s/%s built from %r / %r: __getstate__ is %s but after a pickle round trip %s, after deepcopy %s" % (fn, kind, impl, keys, vals, st, back, cp),
+                                       {"family": fn, "kind": kind, "impl": impl, "keys": [repr(k) for k in keys], "values": [repr(v) for v in vals]})
+            # (fs: C copies the bytes into char arrays, Python keeps the caller's objects, so pickle memo
+            #  references differ when one object is used twice -- finding F27; states are compared)
+            if objs["C"][0] != objs["Py"][0] or (fn != "fs" and objs["C"][1] != objs["Py"][1]):
+                ctx.oracle_failure("typed-values:%s:C-and-Python-states-differ" % kind,
+                                   "%s%s built from keys %r values %r: C state %s, Python state %s; pickles equal: %s" % (
+                                       fn, kind, keys, vals, objs["C"][0], objs["Py"][0], objs["C"][1] == objs["Py"][1]),
+                                   {"family": fn, "kind": kind, "keys": [repr(k) for k in keys], "values": [repr(v) for v in vals]})
+    ctx.cov["typed_variant_containers"] = n
+
+
+class sizes_of:
+    def __init__(self, f, impl, ml, mi):
+        from harness.families import sizes
+        self.cm = sizes([f.cls("BTree", impl), f.cls("TreeSet", impl)], ml, mi)
+
+    def __enter__(self):
+        return self.cm.__enter__()
+
+    def __exit__(self, *a):
+        return self.cm.__exit__(*a)
+
+
+def stored_states(ctx):
+    """containers that live in a database: after every commit (objects have oids: a single stored leaf must be
+    referenced, not embedded) the state of every object is the same in C and Python"""
+    from harness.minijar import Storage, Jar
+    from harness.props.c09 import state_repr
+    rng = ctx.rng
+    n = 0
+    for it in range(ctx.n(60, 600)):
+        kind = rng.choice(["BTree", "TreeSet"])
+        fn = rng.choice(ALL_FAMS)
+        ml, mi = rng.choice([(2, 2), (3, 3), (2, 3), (4, 4)])
+        u = 24
+        setl = kind == "TreeSet"
+        keys = rng.sample(range(u), rng.randint(ml + 1, 3 * ml + 3))
+        keep = rng.sample(keys, rng.randint(1, ml))
+        phases = [[("add", k) if setl else ("set", k, k % 4) for k in keys],
+                  [("remove", k) if setl else ("del", k) for k in keys if k not in keep],
+                  [("add", rng.randrange(u)) if setl else ("set", rng.randrange(u), 1) for _ in range(rng.randint(1, 5))]]
+        reprs = {}
+        for impl in ("C", "Py"):
+            env = TreeEnv(fn, kind, impl, "int" if fn[0] == "O" else None)
+            out = []
+            with env.sized(ml, mi):
+                st = Storage()
+                jar = Jar(st)
+                t = env.new()
+                jar.add(t)
+                jar.commit()
+                for ph in phases:
+                    for c in ph:
+                        env.call(t, c)
+                    jar.commit()
+                    out.append(state_repr(t))
+            reprs[impl] = out
+            n += 1
+        if reprs["C"] != reprs["Py"]:
+            i = [a == b for a, b in zip(reprs["C"], reprs["Py"])].index(False)
+            ctx.oracle_failure("stored:%s:C-and-Python-states-differ" % kind,
+                               "%s%s sizes=(%d,%d) stored in a database, after commit #%d (grow / shrink to one leaf / touch): C state %s, Python state %s" % (
+                                   fn, kind, ml, mi, i + 1, str(reprs["C"][i])[:300], str(reprs["Py"][i])[:300]),
+                               {"family": fn, "kind": kind, "sizes": [ml, mi], "phases": phases})
+    ctx.cov["stored_containers_compared"] = n
 
 
 def rebuild(env, calls, keyenv=None):
